@@ -1,0 +1,23 @@
+//go:build verif
+
+// Contracts for package kex, checked by /verif/govc (see /verif/DESIGN.md).
+// Comment-only file: it adds nothing to any build.
+package kex
+
+// ---- session crypter: framing of TO2 messages after ProveDevice (C05) ----------------
+
+//@ func kex.SessionCrypter.Decrypt
+//@   props C05 C02(functional) C10(sweep)
+//@   sweep bounds,panic,make,nilmem
+//@   callassert Decrypt#1: @framing (s.Cipher.MacAlg == 0 && tag.Num == 16) || (s.Cipher.MacAlg != 0 && tag.Num == 17)
+//@   callassert Decrypt#1: @mac ? s.Cipher.MacAlg != 0 ==> bytes(expectedDigest) == MacOf(u(s.Cipher.MacAlg), bytes(s.SVK), u(mac0.Protected), u(*mac0.Payload))
+//@   callassert Decrypt#1: @object ? s.Cipher.MacAlg != 0 ==> u(arg0) == u(mac0.Payload.Val)
+//@   callassert Decrypt#1: @keys arg1 == s.Cipher.EncryptAlg && bytes(arg2) == bytes(s.SEK)
+
+//@ func kex.SessionCrypter.Encrypt
+//@   props C05 C10(sweep)
+//@   sweep bounds,panic,make,nilmem
+//@   callassert Encrypt#1: @keys arg1 == s.Cipher.EncryptAlg && bytes(arg2) == bytes(s.SEK) && u(arg3) == u(payload)
+//@   callassert Digest#1: @keys arg1 == s.Cipher.MacAlg && bytes(arg2) == bytes(s.SVK) && arg0.Payload != nil && u(arg0.Payload.Val) == u(enc0)
+//@   ensures @frame16 err == nil && s.Cipher.MacAlg == 0 ==> dyntype(result0, "*cose.Encrypt0Tag[any,[]byte]")
+//@   ensures @frame17 err == nil && s.Cipher.MacAlg != 0 ==> dyntype(result0, "*cose.Mac0Tag[cose.Encrypt0[any,[]byte],[]byte]")
